@@ -780,6 +780,40 @@ impl PhysicalPlanner {
 
     /// Estimate the output row count of a logical plan using table statistics.
     /// Returns None if statistics are not available.
+    /// Follow `col` down through SubqueryAlias and Project nodes to the base-table
+    /// column it passes through unchanged; None if it is computed, or anything else
+    /// than alias / projection / scan lies in between.
+    fn passthrough_scan_column(
+        plan: &LogicalPlan,
+        col: &crate::planner::Column,
+    ) -> Option<crate::planner::Column> {
+        match plan {
+            LogicalPlan::Scan(node) => node.schema.resolve_column(col).map(|_| col.clone()),
+            LogicalPlan::SubqueryAlias(node) => {
+                let (idx, _) = node.schema.resolve_column(col)?;
+                let inner = node.input.schema();
+                let f = inner.fields().get(idx)?;
+                let inner_col = crate::planner::Column {
+                    relation: f.relation.clone(),
+                    name: f.name.clone(),
+                };
+                Self::passthrough_scan_column(&node.input, &inner_col)
+            }
+            LogicalPlan::Project(node) => {
+                let (idx, _) = node.schema.resolve_column(col)?;
+                let mut e = node.exprs.get(idx)?;
+                while let Expr::Alias { expr, .. } = e {
+                    e = expr;
+                }
+                match e {
+                    Expr::Column(c) => Self::passthrough_scan_column(&node.input, c),
+                    _ => None,
+                }
+            }
+            _ => None,
+        }
+    }
+
     fn estimate_output_rows(&self, plan: &LogicalPlan) -> Option<usize> {
         match plan {
             LogicalPlan::Scan(node) => {
@@ -1404,7 +1438,18 @@ impl PhysicalPlanner {
                     .position(|(_, r)| matches!(r, Expr::Column(_)))
                     .unwrap_or(0);
                 let probe_rt_filter = if rt_eligible && !on.is_empty() {
-                    if let Some(Expr::Column(c)) = on.get(rt_pair).map(|(_, r)| r) {
+                    // The scan column the probe key is a plain pass-through of. The
+                    // physical dig below walks through Projects and then looks the key up
+                    // BY NAME in the provider schema; a projection that renames
+                    // (`(SELECT t.b AS a FROM t) s ... ON x = s.a`) made it filter the
+                    // provider's OTHER column `a` and the join lost its matches.
+                    let scan_col = on.get(rt_pair).and_then(|(_, r)| match r {
+                        Expr::Column(c) => Self::passthrough_scan_column(right_plan, c),
+                        _ => None,
+                    });
+                    if let (Some(Expr::Column(_)), Some(c)) =
+                        (on.get(rt_pair).map(|(_, r)| r), scan_col.as_ref())
+                    {
                         // The probe-side streaming scan may sit under column
                         // pass-through Projects (decorrelated subquery
                         // shapes); the filter column is resolved by NAME in
